@@ -1,6 +1,6 @@
 (* C16 -- Saved state restores: snapshot -> fresh gateway -> snapshot is a fixpoint.  Statements only. *)
 From Coq Require Import List Bool Arith.
-From RV Require Import M_Snapshot P_Snapshot.
+From RV Require Import M_Snapshot P_Snapshot M_StoreDeferred P_StoreDeferred.
 Import ListNotations.
 
 Section Store.
@@ -49,3 +49,12 @@ Proof. exact wanted_unexpired_refuted. Qed.
 (* the concrete filter satisfies the monotonicity the fixpoint theorem assumes *)
 Theorem C16_wanted_msg_mono : forall inc m, wanted_msg inc true m = true -> wanted_msg inc false m = true.
 Proof. exact wanted_msg_mono. Qed.
+
+(* "snapshots taken at every prefix": what a snapshot without expired packets shows does not depend on the snapshots (reads) taken before it.
+   Over the deferred-deletion store (M_StoreDeferred): for ANY interleaving of arrivals, reads that are honest about expiry (a read only finds
+   expired what is expired at the time of the final snapshot -- expiry never un-happens, C14) and loop turns, the live content of every slot is
+   the newest arrival unless that has expired: a function of the arrivals alone. *)
+Theorem C16_snapshot_independent_of_earlier_reads : forall exp evs c,
+  NoDup (map d_id (arrivals evs)) -> honest exp dinit evs ->
+  live exp (s_store (drun del_is evs)) c = match latest (arrivals evs) c with Some m => if exp m then None else Some m | None => None end.
+Proof. exact live_view_independent_of_reads. Qed.
